@@ -83,6 +83,19 @@ func schedHash(tr []int) uint64 {
 	return h.Sum64()
 }
 
+// progND tells whether a program reaches one of the two places where nutsdb
+// follows Go's map iteration order.
+func progND(p *prog.Program) bool {
+	for _, st := range p.Steps {
+		for _, op := range st.Ops {
+			if op.K == "spop" {
+				return true // SPop follows Go's map iteration order
+			}
+		}
+	}
+	return p.Cfg.IdxMode == 2 // a commit rotating two segments writes its index files in map order
+}
+
 // concExec runs a scheduled program and judges its history.
 func concExec(seed uint64, p *prog.Program, finalReopen bool, backup bool) (*run.ConcRunner, *RunResult) {
 	if core.RaceBuild {
@@ -94,17 +107,7 @@ func concExec(seed uint64, p *prog.Program, finalReopen bool, backup bool) (*run
 	rng := core.NewRng(seed).Derive("sched")
 	switchP := []float64{1, 1, 0.5, 0.2}[rng.Intn(4)]
 	c.Run(rng, switchP)
-	nd := false
-	for _, st := range p.Steps {
-		for _, op := range st.Ops {
-			if op.K == "spop" {
-				nd = true // SPop follows Go's map iteration order
-			}
-		}
-	}
-	if p.Cfg.IdxMode == 2 {
-		nd = true // a commit rotating two segments writes its index files in map order
-	}
+	nd := progND(p)
 	res := &RunResult{ND: nd, Viol: c.Viol, LogHash: c.W.Log.H, Probes: c.W.Stats.Probes, Faults: c.W.Stats.Faults, IO: c.W.Stats.IOByKind, SimNS: c.W.Stats.SimAdvance}
 	if c.Sched == nil {
 		return c, res
